@@ -126,7 +126,7 @@ StepBody(st, items) ==
          Fail(st, IF st.arrow THEN "invalid" ELSE "notline")
     [] c = "cd" -> Fail(st, IF st.arrow THEN "invalid" ELSE "notline")
     [] StartsComment(items, i) ->                                 \* BODY_COMMENT: nothing but a comment
-         Fail(st, IF st.arrow THEN "invalid" ELSE "notline")
+         Fail(st, IF st.arrow THEN "open" ELSE "notline")         \* (a bare arrow takes the NEXT line as its text)
     [] c = "t" ->                                                 \* BODY_HASHTAG: tags without text
          Fail([st EXCEPT !.stack = Push(st.stack, "TCH")], "invalid")
     [] c = "x" ->                                                 \* EXPRESSION_START: push Text, push Expression; } pops
@@ -163,7 +163,7 @@ StepTCH(st, items) ==
 
 \* the line break
 Newline(st) ==
-  IF Top(st) = "Body" THEN Fail(st, IF st.arrow THEN "invalid" ELSE "notline")   \* nothing on the line
+  IF Top(st) = "Body" THEN Fail(st, IF st.arrow THEN "open" ELSE "notline")      \* nothing on the line
   ELSE [st EXCEPT !.stack = Pop(st.stack), !.done = TRUE]   \* TEXT_NEWLINE / TEXT_COMMANDHASHTAG_NEWLINE: popMode
 
 StepItem(st, items) ==
